@@ -67,6 +67,15 @@ def parse_smt(s, env):
         return tbl[op]()
     return rd()
 
+def bvsum(terms, w=8):
+    r = BitVecVal(0, w)
+    for t in terms: r = r + t
+    return r
+
+def count(conds, w=8):
+    """number of true conditions as a bit-vector"""
+    return bvsum([If(c, BitVecVal(1, w), BitVecVal(0, w)) for c in conds], w)
+
 # ------------------------------------------------------------------ model
 
 class Model:
@@ -444,9 +453,87 @@ class Model:
         _, dead = self.closed_facts()
         return [t for ti, t in enumerate(self.procs[pi]['trans']) if ti not in dead[pi]]
 
+    def wgzero_facts(self, s):
+        """a WaitGroup nobody Adds to only decreases: after passing Wait() it is zero for good"""
+        f = []
+        adders = {t['ev']['cell'] for p in self.procs for t in p['trans'] if t['ev']['kind'] == 'wgadd'}
+        for pi, p in enumerate(self.procs):
+            for cell in {t['ev']['cell'] for t in p['trans'] if t['ev']['kind'] == 'wgwait'} - adders:
+                val = {l: None for l in range(p['nlocs'])}
+                val[p['init']] = False
+                ch = True
+                while ch:
+                    ch = False
+                    for t in p['trans']:
+                        if val[t['from']] is None: continue
+                        v = val[t['from']] or (t['ev']['kind'] == 'wgwait' and t['ev']['cell'] == cell)
+                        nv = v if val[t['to']] is None else (val[t['to']] and v)
+                        if val[t['to']] is None or nv != val[t['to']]:
+                            val[t['to']] = nv; ch = True
+                for l, v in val.items():
+                    if v: f.append(Implies(s['pc'][pi] == l, s['cell'][cell] == 0))
+        return f
+
+    def closer_facts(self, s):
+        """a channel closed by a single transition: it is closed iff its closer is past that transition"""
+        f = []
+        closes = {}
+        for pi, p in enumerate(self.procs):
+            for t in p['trans']:
+                if t['ev']['kind'] == 'close': closes.setdefault(t['ev']['chan'], []).append((pi, t))
+        for c, lst in closes.items():
+            if len({pi for pi, _ in lst}) != 1: continue
+            pi = lst[0][0]; p = self.procs[pi]
+            may = set(); work = [t['to'] for _, t in lst]
+            while work:
+                l = work.pop()
+                if l in may: continue
+                may.add(l)
+                work += [t['to'] for t in p['trans'] if t['from'] == l]
+            f.append(Implies(s['closed'][c], Or(*[s['pc'][pi] == l for l in may])))
+            pre = set(range(p['nlocs'])) - may
+            # locations that can only be reached through the close
+            srcs = {t['from'] for _, t in lst}
+            must = {l for l in may if l not in srcs and all((t['from'] in may and t['from'] not in srcs) or any(t is ct for _, ct in lst) for t in p['trans'] if t['to'] == l)}
+            for l in must:
+                f.append(Implies(s['pc'][pi] == l, s['closed'][c]))
+        return f
+
+    def mutex_facts(self, s):
+        """a mutex is locked iff exactly one process is between its Lock and Unlock"""
+        f = []
+        for n, c in self.cells.items():
+            if c['kind'] != 'mutex': continue
+            held_any = []
+            for pi, p in enumerate(self.procs):
+                if not any(t['ev']['kind'] in ('lock', 'unlock') and t['ev']['cell'] == n for t in p['trans']): continue
+                val = {l: None for l in range(p['nlocs'])}
+                val[p['init']] = frozenset([False])
+                ch = True
+                while ch:
+                    ch = False
+                    for t in p['trans']:
+                        if val[t['from']] is None: continue
+                        vs = set(val[t['from']])
+                        if t['ev']['kind'] == 'lock' and t['ev']['cell'] == n: vs = {True}
+                        if t['ev']['kind'] == 'unlock' and t['ev']['cell'] == n: vs = {False}
+                        nv = frozenset(vs) if val[t['to']] is None else frozenset(vs | set(val[t['to']]))
+                        if nv != val[t['to']]:
+                            val[t['to']] = nv; ch = True
+                must = [l for l, v in val.items() if v == frozenset([True])]
+                may = [l for l, v in val.items() if v is not None and True in v]
+                if set(must) != set(may):
+                    continue  # ambiguous locations: no fact for this process
+                held_any.append(Or(*[s['pc'][pi] == l for l in must]) if must else BoolVal(False))
+            ones = BitVecVal(-1, s['cell'][n].size())
+            f.append(Or(s['cell'][n] == 0, s['cell'][n] == ones))
+            f.append((s['cell'][n] == ones) == Or(*held_any) if held_any else s['cell'][n] == 0)
+            f.append(ULE(count(held_any), 1))
+        return f
+
     def closed_inv(self, s):
         facts, _ = self.closed_facts()
-        f = []
+        f = self.wgzero_facts(s) + self.closer_facts(s) + self.mutex_facts(s)
         for pi, fc in enumerate(facts):
             for l, chans in fc.items():
                 for c in chans:
@@ -457,16 +544,17 @@ class Model:
         """number of places holding token k: buffered channel slots below the count, live token registers"""
         terms = []
         kv = BitVecVal(k, self.tb)
+        one, zero = BitVecVal(1, 8), BitVecVal(0, 8)
         for cid, c in self.chans.items():
             if c['elem'] != 'tok': continue
             for i in range(c['cap']):
-                terms.append(If(And(ULT(i, s['cnt'][cid]), s['slot'][cid][i] == kv), 1, 0))
+                terms.append(If(And(ULT(i, s['cnt'][cid]), s['slot'][cid][i] == kv), one, zero))
         live = self.live_regs()
         for pi, p in enumerate(self.procs):
             for l in range(p['nlocs']):
                 for r in live[pi][l]:
-                    terms.append(If(And(s['pc'][pi] == l, s['v'][pi][r] == kv), 1, 0))
-        return Sum(terms) if terms else IntVal(0)
+                    terms.append(If(And(s['pc'][pi] == l, s['v'][pi][r] == kv), one, zero))
+        return bvsum(terms)
 
     def wellformed(self, s):
         f = []
@@ -478,7 +566,10 @@ class Model:
                     f.append(Implies(s['pc'][pi] == l, ULT(s['v'][pi][r], self.N)))
         f += self.closed_inv(s)
         closable = {t['ev']['chan'] for p in self.procs for t in p['trans'] if t['ev']['kind'] == 'close'}
+        senders = {cs['chan'] for p in self.procs for t in p['trans'] if t['ev']['kind'] == 'select' for cs in t['ev']['cases'] if cs['dir'] == 'send'}
         for cid, c in self.chans.items():
+            if cid not in senders:
+                f.append(s['cnt'][cid] == 0)     # nobody sends on this channel
             if cid not in closable:
                 f.append(Not(s['closed'][cid]))  # no transition closes this channel
             f.append(ULE(s['cnt'][cid], c['cap']))
